@@ -649,15 +649,16 @@ func (vc *VC) hasBigDecl() {
 }
 
 // noteAllocType records the row kind of a fresh allocation of element type t
-func (vc *VC) noteAllocType(l *Layouter, ref string, t types.Type) {
+func (vc *VC) noteAllocType(l *Layouter, ref string, t types.Type, reach string) {
+	// guarded by the path: the same address is a different object on another path
 	vc.hasBigDecl()
 	if containsBig(l, t, 0) {
 		if isBigInt(t) {
-			vc.assert(app("hasBig", ref))
+			vc.assert(sImp(reach, app("hasBig", ref)))
 		}
 		return
 	}
-	vc.assert(sNot(app("hasBig", ref)))
+	vc.assert(sImp(reach, sNot(app("hasBig", ref))))
 }
 
 // ---------------------------------------------------------------------------
